@@ -40,6 +40,11 @@ fn main() {
                 }
             }
         }
+        for nb in [false, true] {
+            if doc.part == format!("status-sweep:model:nb={}", nb as u8) {
+                std::process::exit(vlab::replay::replay_dfs(&doc, &move || c14::run_status_sweep(TKind::Model, nb)));
+            }
+        }
         for t in [TKind::MmioModern, TKind::Pci] {
             if doc.part == format!("capacity-under-resize:{}", t.name()) {
                 std::process::exit(vlab::replay::replay_dfs(&doc, &move || vlab::c13::run_tear_as("C14", "capacity", vlab::drivers::Kind::Blk, t)));
@@ -49,13 +54,20 @@ fn main() {
         std::process::exit(2);
     }
     let mut c = Check::new("C14", args.tier, "model_checking");
-    c.rule = "DFS over operation sequences (read/write over 5 sector/length variants incl. 2^32 and 2^64-1, flush, device_id, non-blocking read/write with up to 3 outstanding, device completion of any held request, consumption of the next completion) x 4 feature sets, with the device's status a bounded deviation (OK default; IOERR, UNSUPP, 0xff); reference in-memory disk decoding every chain. Parts blk-queue-full: non-blocking requests are submitted until the driver refuses (exactly 5 fit directly and 16 with indirect descriptors on the 16-descriptor queue; the refusal must be QueueFull without side effects and every outstanding chain must still decode as submitted), the device completes them in an explored order (deviation = not the oldest) with explored statuses, each completion must return its own status and data, and the whole is repeated on the recycled queue. distinct = distinct observation signatures".into();
+    c.rule = "DFS over operation sequences (read/write over 5 sector/length variants incl. 2^32 and 2^64-1, flush, device_id, non-blocking read/write with up to 3 outstanding, device completion of any held request, consumption of the next completion) x 4 feature sets, with the device's status a bounded deviation (OK default; IOERR, UNSUPP, 0xff, 3 = the driver's own not-ready placeholder). Parts status-sweep: every status byte 0..=255 for every request kind (blocking calls at depth 1; non-blocking submit / complete / consume at depth 3) must map to Ok / IoError / Unsupported / NotReady as documented; reference in-memory disk decoding every chain. Parts blk-queue-full: non-blocking requests are submitted until the driver refuses (exactly 5 fit directly and 16 with indirect descriptors on the 16-descriptor queue; the refusal must be QueueFull without side effects and every outstanding chain must still decode as submitted), the device completes them in an explored order (deviation = not the oldest) with explored statuses, each completion must return its own status and data, and the whole is repeated on the recycled queue. distinct = distinct observation signatures".into();
     c.assumptions = vec!["blocking helpers are only called with nothing else in flight (their documented precondition)".into()];
     for (t, d, dev, nb) in parts(args.tier) {
         let part = format!("blk:{}:depth={}:dev={}:nb={}", t.name(), d, dev, nb as u8);
         let mut cfg = DfsConfig::new(&part, dev);
         cfg.wall_cap = Duration::from_secs(if args.tier == Tier::Quick { 40 } else { 1500 });
         let st = dfs::explore(&cfg, &move || c14::run(t, d, nb));
+        c.add_dfs(&part, &st);
+    }
+    // Every status byte 0..=255 for every request kind.
+    for nb in [false, true] {
+        let part = format!("status-sweep:model:nb={}", nb as u8);
+        let cfg = DfsConfig::new(&part, 0);
+        let st = dfs::explore(&cfg, &move || c14::run_status_sweep(TKind::Model, nb));
         c.add_dfs(&part, &st);
     }
     // Capacity under device-side resizes: whatever the placement of up to 3 configuration updates
